@@ -39,6 +39,8 @@ pub struct Point {
     pub op_desc: String,
     /// the atomic access that preceded the crash point: (line, kind, outcome)
     pub after: (u32, u8, u8),
+    /// line of an outstanding removal mark at the crash point
+    pub mark: Option<u32>,
 }
 
 pub const POST_CRASH_CALL_BUDGET: u64 = 4000;
@@ -150,7 +152,7 @@ fn run_generic<A: Ar>(spec: &CaseSpec, tag: u64, every: u64, mut source: impl Fn
         let ob = obligations(&e);
         let mem = unsafe { std::slice::from_raw_parts(e.a().raw_ptr(), e.a().capacity()) }.to_vec();
         let step0 = ST.with(|st| st.borrow().total_steps);
-        points.push(Point { op_index: i, step: step0, bytes: mem, obligations: ob.clone(), boundary: true, op_desc: format!("{:?}", op), after: (0, 0, 0) });
+        points.push(Point { op_index: i, step: step0, bytes: mem, obligations: ob.clone(), boundary: true, op_desc: format!("{:?}", op), after: (0, 0, 0), mark: None });
         // the range released by this operation carries no obligation once the release has begun
         let releasing: Option<u64> = match &op {
             Op::Drop { h } if !e.live.is_empty() => Some(e.live[h % e.live.len()].r.id),
@@ -162,8 +164,8 @@ fn run_generic<A: Ar>(spec: &CaseSpec, tag: u64, every: u64, mut source: impl Fn
         let snaps = ST.with(|st| std::mem::take(&mut st.borrow_mut().snaps));
         // clear(): the caller promises not to use anything handed out before - no obligations inside it
         let ob_in: Vec<Range> = if matches!(op, Op::Clear) { Vec::new() } else { ob.into_iter().filter(|r| Some(r.id) != releasing).collect() };
-        for (step, bytes, la) in snaps {
-            points.push(Point { op_index: i, step, bytes, obligations: ob_in.clone(), boundary: false, op_desc: format!("{:?}", op), after: la });
+        for (step, bytes, la, om) in snaps {
+            points.push(Point { op_index: i, step, bytes, obligations: ob_in.clone(), boundary: false, op_desc: format!("{:?}", op), after: la, mark: om });
         }
         i += 1;
     }
@@ -171,7 +173,7 @@ fn run_generic<A: Ar>(spec: &CaseSpec, tag: u64, every: u64, mut source: impl Fn
         let ob = obligations(&e);
         let mem = unsafe { std::slice::from_raw_parts(e.a().raw_ptr(), e.a().capacity()) }.to_vec();
         let step0 = ST.with(|st| st.borrow().total_steps);
-        points.push(Point { op_index: i, step: step0, bytes: mem, obligations: ob, boundary: true, op_desc: "end".into(), after: (0, 0, 0) });
+        points.push(Point { op_index: i, step: step0, bytes: mem, obligations: ob, boundary: true, op_desc: "end".into(), after: (0, 0, 0), mark: None });
     }
     out.viols.extend(e.viols.iter().cloned());
     out.stats = e.stats.clone();
@@ -194,7 +196,7 @@ fn run_generic<A: Ar>(spec: &CaseSpec, tag: u64, every: u64, mut source: impl Fn
         }
         if let Some((class, detail)) = check_point::<A>(&spec.cfg, pt, &crash_path, &mut out) {
             if out.viols.iter().all(|v| v.class != class) {
-                let site = if pt.after.0 == 0 { "operation boundary".to_string() } else { format!("after {}:{}@{}", crate::hook::kind_name(pt.after.1), ["fail", "ok", "spurious"][pt.after.2 as usize % 3], crate::scen::linemap().func(pt.after.0)) };
+                let site = if let Some(ml) = pt.mark { format!("mark-outstanding {}", crate::scen::linemap().func(ml)) } else if pt.after.0 == 0 { "operation boundary".to_string() } else { format!("after {}:{}@{}", crate::hook::kind_name(pt.after.1), ["fail", "ok", "spurious"][pt.after.2 as usize % 3], crate::scen::linemap().func(pt.after.0)) };
                 out.viols.push(Violation { prop: "C06", class, detail: format!("[{}] crash at atomic step {} ({}) of op #{} {}: {}", site, pt.step, if pt.boundary { "operation boundary" } else { "inside the operation" }, pt.op_index, pt.op_desc, detail), op: pt.op_index });
                 if out.first_bad_point.is_none() {
                     out.first_bad_point = Some((pt.op_index, pt.step));
@@ -266,6 +268,7 @@ pub fn check_mt_points(cfg: &Cfg, pts: &[crate::mt::CrashPt], tag: u64, out: &mu
             boundary: false,
             op_desc: format!("{} threads in flight", cp.in_flight),
             after: (0, 0, 0),
+            mark: None,
         };
         let mut h = 0u64;
         for (i, b) in cp.bytes.chunks(8).enumerate() {
